@@ -11,6 +11,12 @@ pub type Grid<R> = Vec<Vec<R>>;
 
 /// (n_plus, n_minus) from the orientation induced by the under-strands; None if some component never goes under
 pub fn signed_crossings(pd: &Pd, mirror: bool) -> Option<(usize, usize)> {
+    signed_crossings_choice(pd, mirror, 0).map(|x| (x.0, x.1))
+}
+
+/// as `signed_crossings`; components that never pass under have no orientation induced by the code: bit k of `choice`
+/// selects the orientation of the k-th such component. Returns (n_plus, n_minus, number of free components).
+pub fn signed_crossings_choice(pd: &Pd, mirror: bool, choice: usize) -> Option<(usize, usize, usize)> {
     let n = pd.len();
     // slots (c, j); incoming[c][j] = Some(true) if the strand enters the crossing through slot j
     let mut incoming: Vec<[Option<bool>; 4]> = vec![[None; 4]; n];
@@ -52,6 +58,35 @@ pub fn signed_crossings(pd: &Pd, mirror: bool) -> Option<(usize, usize)> {
             j = j2;
         }
     }
+    // components never entered through an under-slot: orient them by choice
+    let mut free = 0usize;
+    for c0 in 0..n {
+        for j0 in [1usize, 3] {
+            if incoming[c0][j0].is_some() {
+                continue;
+            }
+            let start = if (choice >> free) & 1 == 0 { j0 } else { (j0 + 2) % 4 };
+            free += 1;
+            let (mut c, mut j) = (c0, start);
+            loop {
+                if incoming[c][j] == Some(true) {
+                    break;
+                }
+                if incoming[c][j] == Some(false) {
+                    return None;
+                }
+                incoming[c][j] = Some(true);
+                let out = (j + 2) % 4;
+                if incoming[c][out] == Some(true) {
+                    return None;
+                }
+                incoming[c][out] = Some(false);
+                let (c2, j2) = partner(c, out);
+                c = c2;
+                j = j2;
+            }
+        }
+    }
     let (mut p, mut m) = (0, 0);
     for c in 0..n {
         if incoming[c][0] != Some(true) {
@@ -63,7 +98,7 @@ pub fn signed_crossings(pd: &Pd, mirror: bool) -> Option<(usize, usize)> {
             _ => return None,
         }
     }
-    Some(if mirror { (m, p) } else { (p, m) })
+    Some(if mirror { (m, p, free) } else { (p, m, free) })
 }
 
 /// circles of a resolution: list of circles, each a sorted list of edge labels
@@ -123,8 +158,16 @@ where
     R: Ring,
     for<'x> &'x R: RingOps<R>,
 {
+    cube_complex_choice(pd, mirror, h, t, reduced, 0)
+}
+
+pub fn cube_complex_choice<R>(pd: &Pd, mirror: bool, h: &R, t: &R, reduced: bool, choice: usize) -> Option<RefComplex<R>>
+where
+    R: Ring,
+    for<'x> &'x R: RingOps<R>,
+{
     let n = pd.len();
-    let (np, nm) = signed_crossings(pd, mirror)?;
+    let (np, nm, _) = signed_crossings_choice(pd, mirror, choice)?;
     let (np, nm) = (np as isize, nm as isize);
     let base_edge = pd.iter().flat_map(|x| x.iter().cloned()).min();
     let mut gens: Vec<Vec<RefGen>> = vec![vec![]; n + 1];
@@ -343,6 +386,45 @@ pub fn catalogue() -> Vec<(&'static str, Pd)> {
         ("figure8", vec![[4, 2, 5, 1], [8, 6, 1, 5], [6, 3, 7, 4], [2, 7, 3, 8]]),
         // the trefoil with one extra kink (Reidemeister I applied to edge 1)
         ("trefoil+kink", vec![[1, 4, 2, 5], [3, 6, 4, 7], [5, 2, 6, 3], [7, 8, 8, 1]]),
+        // the same trefoil code with its crossings listed in another order (first crossing without the smallest label)
+        ("trefoil-rot2", vec![[5, 2, 6, 3], [1, 4, 2, 5], [3, 6, 4, 1]]),
+        ("figure8-rot2", vec![[6, 3, 7, 4], [2, 7, 3, 8], [4, 2, 5, 1], [8, 6, 1, 5]]),
+    ]
+}
+
+/// 7-8 crossing knots for the coefficient-consistency checks (no cube reference is built for these)
+pub fn coeff_catalogue() -> Vec<(&'static str, Pd)> {
+    let mut v = Vec::new();
+    for name in ["6_1", "6_3", "7_4", "7_6", "8_5", "8_18", "8_20"] {
+        let path = format!("/repo/yui-link/resources/links/{}.json", name);
+        if let Ok(txt) = std::fs::read_to_string(&path) {
+            if let Ok(val) = serde_json::from_str::<Vec<[usize; 4]>>(&txt) {
+                v.push((name, val));
+            }
+        }
+    }
+    v
+}
+
+/// 8-9 crossing knots used for the canonical-cycle checks (no cube reference is built for these)
+pub fn cycle_catalogue() -> Vec<(&'static str, Pd)> {
+    let mut v = Vec::new();
+    for name in ["8_19", "8_20", "8_21", "9_42"] {
+        let path = format!("/repo/yui-link/resources/links/{}.json", name);
+        if let Ok(txt) = std::fs::read_to_string(&path) {
+            if let Ok(val) = serde_json::from_str::<Vec<[usize; 4]>>(&txt) {
+                v.push((name, val));
+            }
+        }
+    }
+    v
+}
+
+/// diagrams with a component that only passes over (its orientation is not determined by the code)
+pub fn over_only_catalogue() -> Vec<(&'static str, Pd)> {
+    vec![
+        ("unknot+over-circle", vec![[1, 3, 2, 4], [2, 3, 1, 4]]),
+        ("trefoil+over-circle", vec![[8, 4, 2, 5], [3, 6, 4, 1], [5, 2, 6, 3], [1, 9, 7, 10], [7, 9, 8, 10]]),
     ]
 }
 
